@@ -271,7 +271,12 @@ func (c *meekConn) roundTrip(sndBuf []byte) ([]byte, error) {
 
 		resp.Body.Close()
 		err = fmt.Errorf("status code was %d, not %d", resp.StatusCode, http.StatusOK)
-		time.Sleep(retryDelay)
+		select {
+		case <-time.After(retryDelay):
+		case <-c.workerCloseChan:
+			// Close() was called, do not retry.
+			return nil, err
+		}
 	}
 	return nil, err
 }
